@@ -5,7 +5,7 @@ CONSTANTS
   Fixes = {"654ac52", "3f5c312", "66b62cc", "7418747", "f6702a7"}
   ProbeMod = 4
   NN = 3
-  Horizon = 80
+  Horizon = 72
   Mode = "c05"
   Pol = "next"
   NotifyDown = TRUE
